@@ -34,6 +34,10 @@ type Op struct {
 	CCs    []string   `json:"ccs,omitempty"`
 	Ms     int64      `json:"ms,omitempty"`
 	Out    string     `json:"out,omitempty"` // observed, as a Coq term
+	// used by C07 only: the handle the op goes through (0 | 1) and the fault injected into a write
+	// ("before" | "after" | "partial:K": error with nothing / everything / the first K batch items applied)
+	H     int    `json:"h,omitempty"`
+	Fault string `json:"fault,omitempty"`
 }
 
 type History struct {
